@@ -25,7 +25,7 @@ IMPORTS = ("From Coq Require Import Qcanon.\nFrom PV Require Import C05.Model C0
            "Local Open Scope nat_scope.\n")
 EPS = Fraction(1, 2 ** 30)
 NEG = "-inf"
-THEOREMS = ["c05_model_mass_le_exact", "c05_model_exact_when_unpruned", "c05_prefix_matrix_invariant",
+THEOREMS = ["c05_model_refines_pbs_ref", "c05_model_mass_le_exact", "c05_model_exact_when_unpruned", "c05_prefix_matrix_invariant",
             "c05_prefix_matrix_invariant_step", "c05_valid_prefixes_distinct_blank_free_bounded", "c05_sorted_by_mass",
             "c05_invalid_slots_last", "c05_element_independent_of_padding_frames",
             "c05_pbs_exact_when_unpruned", "c05_pbs_le_exact"]
@@ -167,6 +167,17 @@ def advance_term(case, out):
             f"{cln(out['choice'])} {cl([cln(c) for c in ys])} {cln(out['last'])} {cln(out['lens'])} "
             f"{clm(out['nb'])} {clm(out['b'])} {cl([clb(r) for r in out['isp']])} {cln(out['src'])} "
             f"{clb(out['nonext'])}")
+
+
+def advance_weak_term(case, out):
+    """only what the property fixes: valid slots in full, invalid slots massless"""
+    t = advance_term(case, out)
+    if t == "false":
+        return t
+    ys = [c[:ln] for c, ln in zip(out["y"], out["lens"])]
+    return (f"check_advance_weak {cn(case['V'])} {cn(case['width'])} {_frame_term(case)} {_beam_term(case)} "
+            f"{cln(out['choice'])} {cl([cln(c) for c in ys])} {cln(out['last'])} {cln(out['lens'])} "
+            f"{clm(out['nb'])} {clm(out['b'])} {cl([clb(r) for r in out['isp']])}")
 
 
 def advance_show(case, out):
@@ -487,6 +498,8 @@ def alone_check(case, out):
     if "exc" in out:
         return None
     T, N, V = case["T"], case["N"], case["V"]
+    if all(v in (0.0, -math.inf) for row in case["logits"] for r in row for v in r):
+        return None  # uniform supports: exact ties everywhere, topk may break them differently per shape
     for n in range(N):
         ln = _len_of(case, n)
         if N == 1 and ln == T and case["lens"] is None:
@@ -648,9 +661,15 @@ def judge(chk, case, out):
             rec["what"] = "ctc_prefix_search_advance raised or returned NaN/+inf mass on a well-formed state: " + json.dumps(
                 out.get("exc", [out.get("nb"), out.get("b")]))
             return rec, False
-        rec["what"] = ("ctc_prefix_search_advance differs from Model.advance (masses, prefixes, prefix matrix, sources or an "
-                       "inadmissible topk answer) on an exact dyadic input")
-        # the step function's output is fixed uniquely up to topk ties, which the model already allows
+        weak = coq_eval_bools(chk.workdir, IMPORTS, [advance_weak_term(case, out)], tag="weak")[0]
+        rec["valid_slots_agree"] = weak
+        if weak:
+            rec["what"] = ("ctc_prefix_search_advance differs from Model.advance only in what the property leaves open (the "
+                           "representation of slots without a real prefix, next_src / next_is_nonext bookkeeping)")
+            return rec, True
+        rec["what"] = ("ctc_prefix_search_advance differs from Model.advance on a slot holding a real prefix (mass, prefix, "
+                       "length, last token or prefix matrix) or gives an inadmissible topk answer, on an exact dyadic input; "
+                       "Model.advance is proved to be the prefix beam recursion (c05_model_refines_pbs_ref_step)")
         return rec, False
     light = light_spec(case, out)
     if light is not None:
@@ -788,7 +807,8 @@ def run(chk, cases=None):
         reported += 1
     # 3. disagreements with the model
     rest = [i for i in bad if i not in direct and i not in sbad]
-    for i in rest[:4]:
+    look = [i for i in rest if cases[i]["kind"] == "advance"][:3] + [i for i in rest if cases[i]["kind"] == "search"][:3]
+    for i in look:
         case = cases[i] if replaying else shrink(cases[i], lambda c: _fails(chk, c), _cands, budget=12)
         out = run_impl(case)
         rec, spec_ok = judge(chk, case, out)
